@@ -17,8 +17,9 @@ import shutil
 from . import common as C
 from . import progs
 
-THEOREMS = ["shortChars_decode", "shortnames_inj", "shortName_class", "short_not_reserved", "pkg_local_disjoint",
-            "names_distinct", "rw_items", "rw_total", "rw_significant", "rw_hints", "rw_tokens", "rw_identity"]
+THEOREMS = ["rw_identity", "rw_items", "rw_total", "rw_significant", "rw_hints", "rw_tokens", "rw_tokens_pred", "unsafe_example", "parse_unique",
+            "shortChars_decode", "shortnames_inj", "shortName_class", "pkg_local_disjoint", "short_not_reserved",
+            "do_is_a_candidate", "names_distinct", "names_fresh"]
 
 KW = ["abstract", "arguments", "await", "async", "boolean", "break", "byte", "case", "catch", "char", "class", "const",
       "continue", "debugger", "default", "delete", "do", "double", "else", "enum", "eval", "export", "extends", "false",
@@ -205,8 +206,16 @@ def gen_name_script(rng, minify, big):
     disciplined = True
     nreq = 0
     target = big if big else rng.choice([5, 30, 120])
+    if big:
+        # one function context (or the package context) receives all `big` names
+        if rng.random() < 0.7:
+            lines.append("nm child 0 " + hx(b"main"))
+            stack.append(nxt)
+            nxt += 1
     while nreq < target:
         k = rng.random()
+        if big:
+            k = 1.0
         if k < 0.06 and len(stack) < 8:
             lines.append("nm child %d %s" % (stack[-1], hx(rng.choice(["main", "f", "T.m", "main.func1", "g.func1.func2"]).encode())))
             stack.append(nxt)
@@ -219,7 +228,7 @@ def gen_name_script(rng, minify, big):
                 name = "v%d" % nreq if rng.random() < 0.8 else rng.choice(pool)
             else:
                 name = rng.choice(pool) if rng.random() < 0.8 else "v%d" % rng.randrange(6)
-            pk = 1 if rng.random() < (0.5 if len(stack) == 1 else 0.12) else 0
+            pk = 1 if rng.random() < (0.5 if len(stack) == 1 else (0.03 if big else 0.12)) else 0
             sc = stack[-1]
             if not big and rng.random() < 0.03 and len(stack) > 1:
                 sc = rng.choice(stack[:-1])         # an allocation on an outer live scope: still modelled, but undisciplined
@@ -594,16 +603,16 @@ def gen_programs(rng, tier):
     def add(kind, src):
         jobs.append({"id": "%s%d" % (kind, len(jobs)), "files": {"main.go": src}, "variants": ["plain", "minify"], "native": True,
                      "timeout": 30, "kind": kind})
-    sizes = [30, 730] if tier == "quick" else [5, 27, 30, 60, 120, 703, 730, 800, 1500]
+    sizes = [30, 730] if tier == "quick" else [5, 27, 30, 60, 120, 703, 730, 800, 1000]
     for n in sizes:
         add("manyvars", prog_manyvars(rng, n))
     for n in ([720] if tier == "quick" else [10, 27, 40, 100, 703, 720, 900]):
         add("manypkg", prog_manypkg(rng, n))
-    for _ in range(2 if tier == "quick" else 20):
+    for _ in range(2 if tier == "quick" else 12):
         add("strings", prog_strings(rng, rng.choice([8, 16, 30])))
-    for _ in range(2 if tier == "quick" else 20):
+    for _ in range(2 if tier == "quick" else 12):
         add("minus", prog_minus(rng))
-    for e in (["exit", "panic", "nilmap", "index"] if tier == "quick" else ["exit", "panic", "nilmap", "index"] * 5):
+    for e in (["exit", "panic", "nilmap", "index"] if tier == "quick" else ["exit", "panic", "nilmap", "index"] * 3):
         add("closures-" + e, prog_closures(rng, e))
     return jobs
 
@@ -719,7 +728,7 @@ def run(tier, seed):
         if p != m:
             chk.add_mismatch("programs", op, "plain=%s minify=%s" % (str(p)[:600], str(m)[:600]), str(nat)[:600],
                              signature="C16 plain-vs-minify kind=%s" % j["kind"])
-        elif m != nat:
+        elif (m[0], m[1].replace("runtime error: ", "")) != (nat[0], nat[1].replace("runtime error: ", "")):
             # both builds agree with each other but not with Go: outside C16 (another property's defect or a generator slip)
             pv_native += 1
             chk.notes.append("program %s: plain = minify but differs from native Go: js=%s native=%s" % (j["id"], str(m)[:300], str(nat)[:300]))
@@ -764,7 +773,7 @@ def run(tier, seed):
         ops.append("nm enc " + hx(bytes(rng.choice([0xC2, 0xB7, 0x25, 0x24, 0x20, 0x2E, 0x61, 0x5A, 0x39, 0x7E, 0x2D, rng.randrange(256)]) for _ in range(rng.randrange(0, 8)))))
     scripts = []
     for minify in (True, False):
-        scripts.append(gen_name_script(rng, minify, 2000))
+        scripts.append(gen_name_script(rng, minify, 2100))
         for _ in range(40 if tier == "thorough" else 8):
             scripts.append(gen_name_script(rng, minify, 0))
     if tier == "thorough":
